@@ -5,7 +5,7 @@ import pool as P
 
 def run(ctx):
     P.run_property(ctx, "C09",
-                   [(P.gen_shutdown, 120, 4000), (P.gen_maintenance, 8, 100)],
+                   [(P.gen_shutdown, 120, 4000), (P.gen_maintenance, 8, 100), (P.gen_shutdown_during_eviction, 4, 16)],
                    "1..3 senders x 1..4 sends racing one or two shutdown calls issued after 0..10 ms (seeded delays at every probe point), quiescent shutdown with 0..3 idle connections, "
                    "drop of the transport with idle connections and a sleeping maintenance worker; min_idle 0..2, idle timeout long / 50 ms; sync and tokio.  "
                    "Oracle: every connection idle at the shutdown critical section was sent QUIT before shutdown returned, nothing parked afterwards, operations started after it fail with the shut-down error "
